@@ -469,8 +469,18 @@ func afterCall(rec *Record, env *sims.Env) {
 	// goroutines for as long as the client lives
 	if n := env.Net.OpenBodies(); n != 0 {
 		rec.Sig, rec.What = "response-body-left-open", fmt.Sprintf("%d response bodies handed to the call were never closed", n)
+		return
+	}
+	// the CRL bundles belong to the fetcher and the cache, which hand the same
+	// objects to every caller: a check that writes into one interferes with all
+	// the others
+	if mod := sims.ModifiedBundles(); len(mod) > reportedModified {
+		reportedModified = len(mod)
+		rec.Sig, rec.What = "shared-bundle-modified", fmt.Sprintf("CRL bundle objects shared by all callers were written to: %v", mod)
 	}
 }
+
+var reportedModified int
 
 func trunc(s string, n int) string {
 	if len(s) > n {
